@@ -101,7 +101,7 @@ def raw_param_id(info: bytes, terms, k) -> int:
     return desc
 
 
-def run_encrypt(ctx, tr, d, key: bytes, keyname, size, seed, kid, halg, via, k, out=None):
+def run_encrypt(ctx, tr, d, key: bytes, keyname, size, seed, kid, halg, via, k, out=None, kidnote=None):
     es, kms = scripts()
     fw = d / f"fw{k}.bin"
     pt = envgen.blob(size, seed)
@@ -117,7 +117,7 @@ def run_encrypt(ctx, tr, d, key: bytes, keyname, size, seed, kid, halg, via, k, 
     out.mkdir(exist_ok=True, parents=True)
     if via == "cli":
         subprocess.run(core.cli_cmd("encrypt", "encrypt-and-generate", "--firmware", fw, "--key-name", keyname, "--key-id",
-                                    core.num(kid), "--context", d / "keys", "--hash-alg", halg, "--kw-alg", "direct",
+                                    kidnote or core.num(kid), "--context", d / "keys", "--hash-alg", halg, "--kw-alg", "direct",
                                     "--kms-script", kms, "--encrypt-script", es, "--output-dir", out),
                        cwd=d, env=core.cli_env(), capture_output=True, text=True)
     else:
@@ -220,7 +220,7 @@ def setup_stores(d):
     return stores
 
 
-def run_geninfo(ctx, tr, d, size, seed, kid, via, k):
+def run_geninfo(ctx, tr, d, size, seed, kid, via, k, kidnote=None):
     es, _ = scripts()
     # every fourth blob / wrapped key consists of characters only (hex digits, decimal digits, base64): still a binary file
     blob = envgen.textlike(28 + size, seed) if k % 4 == 1 else envgen.blob(28 + size, seed)
@@ -232,7 +232,7 @@ def run_geninfo(ctx, tr, d, size, seed, kid, via, k):
     out.mkdir()
     if via == "cli":
         subprocess.run(core.cli_cmd("encrypt", "generate-info", "--encrypted-firmware", bf, "--encrypted-key", kf, "--key-id",
-                                    core.num(kid), "--kw-alg", "direct", "--encrypt-script", es, "--output-dir", out),
+                                    kidnote or core.num(kid), "--kw-alg", "direct", "--encrypt-script", es, "--output-dir", out),
                        cwd=d, env=core.cli_env(), capture_output=True, text=True)
     else:
         core.setup_repo_path()
@@ -324,6 +324,16 @@ def run(ctx: core.Check):
         for kid in (KIDS[::3] if ctx.quick else KIDS):
             k += 1
             run_geninfo(ctx, tr, d, size, k, kid, "cli" if k % 10 == 0 else "lib", k)
+    # every notation Python's base-0 integers have, for the key id on the real command line of both sub-commands
+    for j, (note, val) in enumerate([("23", 23), ("0x17", 23), ("0X17", 23), ("0b10111", 23), ("0B1_0111", 23), ("0o27", 23), ("0O27", 23),
+                                     ("0b1000000000000001010101000000000", 0x4000AA00), ("0o10000125000", 0x4000AA00), ("1_073_785_344", 0x4000AA00),
+                                     ("0xB10111", 0xB10111), ("0", 0), ("0b0", 0), ("00", 0)]):
+        k += 1
+        if j % 2:
+            run_geninfo(ctx, tr, d, 16, k, val, "cli", k, kidnote=note)
+        else:
+            run_encrypt(ctx, tr, d, keys["fwenc"], "fwenc", 33, k, val, list(HASHES)[j % len(HASHES)], "cli", k, kidnote=note)
+        tr.scn[tr.tid]["kidnote"] = note
     ctx.sample({"scenario": tr.scn[tr.tid], "event": tr.events[-1]})
     # the same output directory used again (identical firmware, then another key id, then other firmware): what the files say must
     # describe THIS run, whatever the directory held before
